@@ -146,7 +146,7 @@ def run_unit(u):
                 bump('materialise_failed:' + how)
                 continue
             for ast in asts:
-                st, info = cases.compare_select(sv, case, ast)
+                st, info = cases.compare_select(sv, case, ast, cases.respelled(rng, ast, .25))
                 res['evals'] += 1
                 bump('how:' + how)
                 if st == 'unspec':
